@@ -92,7 +92,7 @@ def check_C02(tier, seed):
             for b in impl:
                 bevs, bfin = split_line(impl[b][i])
                 v = verd[b][i].split()
-                ok = len(v) == 2 and v[0] == "1" and (bfin != "OK" or v[1] == "1") and not abnormal(bfin)
+                ok = len(v) == 3 and v[0] == "1" and (bfin != "OK" or v[1] == "1") and v[2] == "1" and not abnormal(bfin)
                 ok = ok and anchors_ok(bevs)
                 if not ok:
                     res.add_violation("events of back-end %s are not a sentence prefix / complete sentence / anchor ids wrong" % b,
